@@ -2,3 +2,4 @@ INIT JInit
 NEXT JNext
 INVARIANT Report
 CHECK_DEADLOCK FALSE
+CONSTANT Tier = "quick"
